@@ -176,6 +176,10 @@ func (s *socket) onOpen() {
 	)
 
 	if i := s.server.Opts().InitialPacket(); i != nil {
+		// encoding a packet consumes its reader: every session needs its own copy
+		if b, ok := i.(types.BufferInterface); ok {
+			i = b.Clone()
+		}
 		s.sendPacket(packet.MESSAGE, i, nil, nil)
 	}
 
